@@ -4,10 +4,16 @@
 
 pub(crate) mod rows;
 mod lemmas;
+mod c01;
 mod c03;
-mod c04;
+pub(crate) mod c04;
 mod c05;
 mod c06;
-mod c09;
-mod c12;
+mod c07;
+mod c08;
+pub(crate) mod c09;
+mod c10;
+mod c11;
+pub(crate) mod c12;
 mod c17;
+mod c19;
